@@ -306,6 +306,10 @@ def build_env(case, cdir):
                 path = os.path.join(ccm, 'nodelist.0815')
                 write_lines(path, ['old1', 'old2', 'old3'])
                 os.utime(path, (1000000000, 1000000000))
+                # ... and one whose name sorts behind the current job's
+                path = os.path.join(ccm, 'nodelist.99998')
+                write_lines(path, ['old7', 'old8'])
+                os.utime(path, (1500000000, 1500000000))
                 path = os.path.join(ccm, 'other.9999')
                 write_lines(path, ['other1'])
                 os.utime(path, (2100000000, 2100000000))
